@@ -36,10 +36,15 @@ type Case struct {
 	GLB    bool        `json:"glb"`
 	// SaveSeq: a sequence of SaveText / SaveBinary calls of saveScenes[i] to one path (saveover.go)
 	SaveSeq []int `json:"save_seq,omitempty"`
+	// UTF8: model names carry non-ASCII letters
+	UTF8 bool `json:"utf8,omitempty"`
 }
 
 func (cs Case) key() string {
 	s := fmt.Sprintf("L%d/glb=%v", cs.Lights, cs.GLB)
+	if cs.UTF8 {
+		s += "/utf8"
+	}
 	for _, m := range cs.Models {
 		s += fmt.Sprintf("|%s,%s,%s,%d", m.Mesh, m.Mat, m.TRS, m.Inst)
 	}
@@ -435,12 +440,21 @@ const lightIntensity = 2.5
 
 func modelName(k int) string { return fmt.Sprintf("m%d", k) }
 
+// modelNameOf: the name of model k of a case; cases marked UTF8 carry letters outside ASCII (two-,
+// three- and four-byte UTF-8 sequences) — lengths in bytes and in characters differ.
+func modelNameOf(cs Case, k int) string {
+	if cs.UTF8 {
+		return fmt.Sprintf("modèle-木-𝄞-%d", k)
+	}
+	return modelName(k)
+}
+
 // Build creates the library input for a case: fresh meshes, materials, textures and samplers.
 func Build(cs Case) gltf.PolyformScene {
 	p := &pools{map[string]*modeling.Mesh{}, map[string]*gltf.PolyformMaterial{}, map[string]*gltf.PolyformTexture{}}
 	var sc gltf.PolyformScene
 	for k, ms := range cs.Models {
-		m := gltf.PolyformModel{Name: modelName(k), Mesh: p.meshPtr(ms.Mesh), Material: p.material(ms.Mat)}
+		m := gltf.PolyformModel{Name: modelNameOf(cs, k), Mesh: p.meshPtr(ms.Mesh), Material: p.material(ms.Mat)}
 		if hasT(ms.TRS) {
 			t := v3(modelT(k, ms.TRS))
 			m.Translation = &t
